@@ -164,6 +164,8 @@ def val(v):
 def apply(r, op, v):
     kind, p = op[0], op[1]
     try:
+        if len(op) > 3 and op[3]:  # operate through a sub-group handle
+            r = r[op[3]]
         if kind == "create_group": r.create_group(p)
         elif kind in ("set", "setitem"): r[p] = v
         elif kind == "create_dataset": r.create_dataset(p, data=v)
@@ -173,6 +175,9 @@ def apply(r, op, v):
         elif kind == "require_group": r.require_group(p)
         elif kind == "require_dataset": r.require_dataset(p, shape=(), dtype="i8", data=v)
         elif kind == "copy": r.copy(p, op[2])
+        elif kind == "copy_shallow": r.copy(p, op[2], shallow=True)
+        elif kind == "copy_noattrs": r.copy(p, op[2], without_attrs=True)
+        elif kind == "copy_node": r.copy(r[p], r.require_group(op[2]))
         elif kind == "move": r.move(p, op[2])
         elif kind == "ds_write": r[p][()] = v
         elif kind == "set_delvalue": r[p] = DEL_VALUE
